@@ -2605,8 +2605,6 @@ class MethII:
             ok = v.term == 'endp' or (v.term == 'none' and self.variant == 'unc')
             if not ok:
                 raise ExtractError('%s: the end pointer handed on is not the view\'s end pointer (not representable)' % what)
-            if v.term == 'endp':
-                pass
             return
         raise ExtractError('%s: parameter type %r' % (what, pty))
 
@@ -3114,7 +3112,6 @@ class MethII:
             raise ExtractError('control reaches the end of a non-void function')
         out.needs = set(self.needs)
         if not self.is_group and not cmp_friend:
-            uses_this = any(re.search(r'\bthis\b', l) for l in self.body.lines)
             self.tail_binders.insert(0, '(this : %s)' % THIS_TY[self.cname])
         out.tail_binders = self.tail_binders
         r = self.cret
@@ -3133,8 +3130,6 @@ class MethII:
         out.ret = lean_ret if out.pure else 'Out %s' % lean_ret
         out.lines, out.cret, out.all_params = self.body.lines, r, self.all_params
         out.binders = binders_ii(out)
-        for gp, role in self.roles.items():
-            pass
         return out
 
     def run_ctor(self, out):
@@ -3308,6 +3303,8 @@ FACTS_II = '''--  * Byte* = Option Nat (none = nullptr), sizes and positions = N
 
 
 def extract(repo, outdir):
+    # keys of `methods` / `failed`: 'I:<class>::<member>' (model I), 'II:<class>::<member>' (model II), '<class>' (the
+    # class could not be scanned), 'SBEPP_SIZE_CHECK', 'model-I', 'model-II'
     report = {'source': HPP, 'methods': {}, 'failed': {}}
     path = os.path.join(repo, HPP)
     try:
@@ -3324,7 +3321,7 @@ def extract(repo, outdir):
         report['failed'][name] = str(ex)
         return '-- EXTRACTION FAILED: %s: %s\n' % (name, str(ex).replace('\n', ' '))
 
-    def emit_model(model, keys, nsmap):
+    def emit_model(model, keys, nsmap, tag):
         for cname in keys:
             if cname not in variants['chk']:
                 continue
@@ -3345,10 +3342,10 @@ def extract(repo, outdir):
             for key in ks:
                 r = model.done[(cname, key)]
                 if isinstance(r, ExtractError):
-                    defs.append(failed('%s::%s' % (cname, key), r))
+                    defs.append(failed('%s:%s::%s' % (tag, cname, key), r))
                     continue
                 defs.append(render_def(r, cname))
-                report['methods']['%s::%s' % (cname, key)] = {
+                report['methods']['%s:%s::%s' % (tag, cname, key)] = {
                     'line': r.line, 'lean': '%s.%s.%s' % (LEAN_NS, nsmap[cname], r.name),
                     'term_sha': hashlib.sha256(('\n'.join(r.lines) + r.binders + r.ret).encode()).hexdigest()[:12]}
             parts.append('namespace %s\n\n%s\nend %s\n' % (nsmap[cname], '\n'.join(defs), nsmap[cname]))
@@ -3363,7 +3360,7 @@ def extract(repo, outdir):
         parts.append(failed('SBEPP_SIZE_CHECK', ex))
     try:
         m1 = ModelI(types, variants, report)
-        emit_model(m1, KEYS_I, NS_I)
+        emit_model(m1, KEYS_I, NS_I, 'I')
     except ERRS as ex:
         parts.append(failed('model-I', ex))
     parts.append('end %s\n' % LEAN_NS)
@@ -3376,7 +3373,7 @@ def extract(repo, outdir):
                  'open Sbepp Sbepp.Gen Sbepp.Cursor Sbepp.Rt.Cursor Sbepp.Rt.Cursor.Dsl Sbepp.Rt.Cursor.GroupDsl\n' % LEAN_NS)
     try:
         m2 = ModelII(types, variants, report)
-        emit_model(m2, KEYS_II, NS_II)
+        emit_model(m2, KEYS_II, NS_II, 'II')
     except ERRS as ex:
         parts.append(failed('model-II', ex))
     parts.append('end %s\n' % LEAN_NS)
